@@ -18,7 +18,7 @@ from .railsmon import run_case_for, setup_worker  # noqa: F401
 PROPERTY = "C03"
 LEVEL = "fault_enumeration"
 RULE = (
-    "case = (generated conversation of 2-3 turns whose turns replay the same verdict vector; fault plan = one action-call index (thorough: also pairs)); "
+    "case = (generated conversation of 2-3 turns whose turns replay the same verdict vector; fault plan = one action-call index, or two (thorough: up to three) indices = several failing turns in one conversation); "
     "for every conversation ALL single-fault positions are enumerated; call sites = input rail / output rail / dialog action, pipelines v1 dialog / "
     "single-call / general / passthrough and v2. non-trivial = the fault is not in the last turn (a next turn exists and is judged); distinct = (conversation, fault plan)"
 )
@@ -78,12 +78,21 @@ def cases(tier, seed):
             for f in range(total):
                 i += 1
                 yield dict(conv, id=i, fault=[f], ncalls=total, per_turn=per_turn)
-            if tier != "quick" and total >= 2:
+            if total >= 2:
+                # two (thorough: also three) faults in one conversation. Indices count the calls as they actually happen: the
+                # calls a faulted turn no longer makes are not counted, so (a, a+1) is "the very next action call fails too" -
+                # normally the first call of the NEXT turn, i.e. two failing turns in a row
                 pairs = list(itertools.combinations(range(total), 2))
                 rng.shuffle(pairs)
-                for a, b in pairs[:6]:
+                consecutive = [(a, a + 1) for a in range(total - 1)]
+                rng.shuffle(consecutive)
+                chosen = consecutive[:2] + pairs[:1] if tier == "quick" else consecutive[:4] + pairs[:6]
+                for a, b in dict.fromkeys(chosen):
                     i += 1
                     yield dict(conv, id=i, fault=[a, b], ncalls=total, per_turn=per_turn)
+                if tier != "quick" and total >= 3:
+                    i += 1
+                    yield dict(conv, id=i, fault=[0, 1, 2], ncalls=total, per_turn=per_turn)
 
 
 def run_case(case):
